@@ -165,7 +165,7 @@ def run_tlc(module, cfg, workdir, env=None, workers=1, timeout=1800, extra=(), x
     tmpd = meta + "_tmp"
     os.makedirs(tmpd, exist_ok=True)
     cmd = ["java", "-XX:+UseSerialGC" if workers == 1 else "-XX:+UseParallelGC", "-XX:CICompilerCount=2", "-Xss128m", f"-Xmx{xmx}", f"-Djava.io.tmpdir={tmpd}", "-cp", TLA_CP,
-           "tlc2.TLC", "-workers", str(workers), "-metadir", meta, "-config", cfg]
+           "tlc2.TLC", "-noGenerateSpecTE", "-workers", str(workers), "-metadir", meta, "-config", cfg]
     if simulate:
         cmd += ["-simulate", simulate]
     cmd += list(extra) + [module + ".tla"]
